@@ -152,6 +152,9 @@ func (glyph *SimpleGlyph) Decode() (*GlyphInfo, error) {
 	start := 0
 	for i := 0; i < numContours; i++ {
 		end := int(endPtsOfContours[i]) + 1
+		if end < start || end > numPoints {
+			return nil, errInvalidGlyphData
+		}
 		pp := make([]Point, end-start)
 		for j := start; j < end; j++ {
 			pp[j-start] = Point{xx[j], yy[j], ff[j]&flagOnCurve != 0}
